@@ -123,6 +123,11 @@ func matchTypes(typ ObjectType, objs ...Object) bool {
 }
 
 func evalConditional(n *ConditionalExpression, env *Environment) Object {
+	if isExpressionIdentifier(n.Expression) {
+		// a lone attribute, even one of type BOOL, is not a condition
+		return newError(syntaxErrorTemplate, n.Expression.String())
+	}
+
 	obj := Eval(n.Expression, env)
 	if isError(obj) {
 		return obj
